@@ -1641,7 +1641,7 @@ func (p *Policy) Import(ctx context.Context, storage logical.Storage, key []byte
 	return p.ImportPublicOrPrivate(ctx, storage, key, true, randReader)
 }
 
-func (p *Policy) ImportPublicOrPrivate(ctx context.Context, storage logical.Storage, key []byte, isPrivateKey bool, randReader io.Reader) error {
+func (p *Policy) ImportPublicOrPrivate(ctx context.Context, storage logical.Storage, key []byte, isPrivateKey bool, randReader io.Reader) (retErr error) {
 	if p.SoftDeleted {
 		return errutil.UserError{Err: ErrSoftDeleted}
 	}
@@ -1649,6 +1649,27 @@ func (p *Policy) ImportPublicOrPrivate(ctx context.Context, storage logical.Stor
 	if p.Type == KeyType_ExternalKey {
 		return errors.New("unable to import keys to a policy of type external key")
 	}
+
+	// If the import partially fails (e.g. the policy cannot be persisted),
+	// restore the policy state, as Rotate does.
+	priorLatestVersion := p.LatestVersion
+	priorMinDecryptionVersion := p.MinDecryptionVersion
+	priorKeySize := p.KeySize
+	var priorKeys keyEntryMap
+
+	if p.Keys != nil {
+		priorKeys = keyEntryMap{}
+		maps.Copy(priorKeys, p.Keys)
+	}
+
+	defer func() {
+		if retErr != nil {
+			p.LatestVersion = priorLatestVersion
+			p.MinDecryptionVersion = priorMinDecryptionVersion
+			p.KeySize = priorKeySize
+			p.Keys = priorKeys
+		}
+	}()
 
 	now := time.Now()
 	entry := KeyEntry{
